@@ -1,3 +1,5 @@
+use std::mem::MaybeUninit;
+
 use tea_deps::polars::prelude::*;
 use tea_deps::polars_arrow::legacy::utils::CustomIterTools;
 #[cfg(feature = "time")]
@@ -68,8 +70,11 @@ macro_rules! impl_for_ca {
 
     (vec $real: ty => $($ForType: ty),*) => {
         $(impl Vec1<Option<$real>> for $ForType {
-            type Uninit = $ForType;
-            type UninitRefMut<'a> = &'a mut $ForType;
+            // a chunked array cannot be written in place: results that are produced slot by
+            // slot (the rolling fast paths of the Vec and ndarray backends, caller supplied
+            // buffers) are staged in a plain buffer and turned into a chunked array at the end
+            type Uninit = PlUninit<$real>;
+            type UninitRefMut<'a> = &'a mut [MaybeUninit<Option<$real>>];
 
             #[inline]
             fn collect_from_iter<I: Iterator<Item = Option<$real>>>(iter: I) -> Self {
@@ -85,12 +90,12 @@ macro_rules! impl_for_ca {
             #[inline]
             fn uninit(len: usize) -> Self::Uninit
             {
-                ChunkedArray::full_null("".into(), len)
+                PlUninit(Vec::uninit(len))
             }
 
             #[inline]
             fn uninit_ref_mut(uninit_vec: &mut Self::Uninit) -> Self::UninitRefMut<'_> {
-                uninit_vec
+                &mut uninit_vec.0
             }
 
             #[inline]
@@ -117,31 +122,33 @@ macro_rules! impl_for_ca {
             impl_for_ca!(view_mut $real=>ChunkedArray<$type>);
             impl_for_ca!(vec $real=>ChunkedArray<$type>);
 
-            impl UninitVec<Option<$real>> for ChunkedArray<$type>
+            impl UninitVec<Option<$real>> for PlUninit<$real>
             {
                 type Vec = ChunkedArray<$type>;
 
-                #[inline(always)]
+                #[inline]
                 unsafe fn assume_init(self) -> Self::Vec {
-                    self
+                    unsafe { self.0.assume_init() }.into_iter().collect_trusted()
                 }
 
                 #[inline]
-                unsafe fn uset(&mut self, _idx: usize, _v: Option<$real>) {
-                    unimplemented!("polars backend do not support set in given index");
-                }
-            }
-
-
-            impl UninitRefMut<Option<$real>> for &mut ChunkedArray<$type> {
-                #[inline]
-                unsafe fn uset(&mut self, _idx: usize, _v: Option<$real>) {
-                    unimplemented!("polars backend do not support set in given index");
+                unsafe fn uset(&mut self, idx: usize, v: Option<$real>) {
+                    unsafe { self.0.uset(idx, v) }
                 }
             }
 
         )*
     };
+}
+
+/// Staging buffer for chunked arrays that are filled slot by slot.
+pub struct PlUninit<T>(Vec<MaybeUninit<Option<T>>>);
+
+impl<T> GetLen for PlUninit<T> {
+    #[inline]
+    fn len(&self) -> usize {
+        self.0.len()
+    }
 }
 
 impl<T: PolarsDataType> GetLen for ChunkedArray<T> {
